@@ -144,7 +144,7 @@ def job_decode(i, tier, seed):
 
 def job_run(lo, hi, tier, seed):
     """E: Run(1) fetch/dispatch scaffold per row: #program reads == 1 + expanded, operand word is what the handler gets,
-    and the next fetch never lands on the operand word (rep == 0)."""
+    and the next fetch never lands on an operand word (rep and block-repeat state symbolic)."""
     E = env()
     ck = core.Check('C02', 'model_checking', tier, seed)
     ex, st0, ctx = E.base()
@@ -163,7 +163,7 @@ def job_run(lo, hi, tier, seed):
     pm = st0.mem[ctx['pm']].cells[0][1]
     pc = R['pc']
     o = z3.Select(pm, z3.ZeroExt(0, pc))
-    pre = inv + [R['prpage'] == 0, R['rep'] == 0, z3.ULT(pc, 0x3FFFE)]
+    pre = inv + [R['prpage'] == 0, z3.ULT(pc, 0x3FFFE)]
     for i in range(lo, hi):
         row = E.rows[i]
         if row['name'] in ('trap', 'retd', 'retid', 'retidc', 'mov_dvm', 'mov_dvm_to'):
@@ -179,7 +179,8 @@ def job_run(lo, hi, tier, seed):
         for n in callm_name:
             ex.intercepts[n] = handler
         st = st0.fork()
-        A = pre + [E.match_pred(row, o)]
+        # a single-instruction repeat of a two-word instruction is outside the architecture's contract (C09)
+        A = pre + [E.match_pred(row, o)] + ([R['rep'] == 0] if row['expanded'] else [])
         st.pc += A
         ex.exits = []
         n0 = ex.ninstr
@@ -213,9 +214,20 @@ def job_run(lo, hi, tier, seed):
             goals.append(z3.ZeroExt(48, o) == bv(decs[0][1], 64))
         # with the handler abstracted (no branch), no loop end and no interrupt taken: pc' = pc + 1 + expanded
         post_pc = bv(ex.load(s1, Ptr(regs.rid, E.rl['pc'][0]), 4), 32)
-        straight = z3.And(R['lp'] == 0, R['ie'] == 0)
+        straight = z3.And(R['lp'] == 0, R['ie'] == 0, R['rep'] == 0)
         goals.append(z3.Implies(straight, post_pc == pc + exp))
-        ck.prove('Run.length[row %d %s]' % (i, row['name']), A, z3.And(*goals), vars={'pc': pc, 'opcode': o, 'second': z3.Select(pm, pc + 1)},
+        # in general the next fetch address is an instruction boundary: the same instruction again (repeat pending), the
+        # word after this instruction, or the start of the innermost block when this instruction closes it with iterations
+        # left - never the operand word of this instruction or of the bkrep that opened the block (start - 1)
+        def frame(f):
+            out = R['bkrep_stack.%s[3]' % f]
+            for k in range(2, -1, -1):
+                out = z3.If(R['bcn'] == k + 1, R['bkrep_stack.%s[%d]' % (f, k)], out)
+            return out
+        nxt = z3.If(z3.And(R['rep'] != 0, R['repc'] != 0), pc, pc + exp)
+        closes = z3.And(R['lp'] != 0, frame('end') + 1 == nxt)
+        goals.append(z3.Implies(R['ie'] == 0, post_pc == z3.If(z3.And(closes, frame('lc') != 0), frame('start'), nxt)))
+        ck.prove('Run.length[row %d %s]' % (i, row['name']), A, z3.And(*goals), vars=dict({'pc': pc, 'opcode': o, 'second': z3.Select(pm, pc + 1)}, **{'r.' + f: R[f] for f in R if f in ('rep', 'repc', 'lp', 'bcn', 'ie') or f.startswith('bkrep_stack')}),
                  sample=('Run(1) with pmem[pc] in row %d (%s): %d program read(s) at pc%s, decoders[opcode] indexed by the fetched word, handler called with (opcode%s); straight-line pc advances by %d so the operand word is never fetched as an instruction'
                          % (i, row['name'], exp, ', pc+1' if row['expanded'] else '', ', pmem[pc+1]' if row['expanded'] else '', exp)) if i % 40 == 0 else None)
         ck.ninstr += ex.ninstr - n0
